@@ -1,6 +1,7 @@
 """C19 — password hashing (mpgameserver/auth.py).
 Correspondence units: auth_verify, auth_prepare, auth_hash, auth_split, auth_unpack, auth_consts, auth_b64encode
-(+ auth_b64strict, the reference decoder that witnesses the consistency of the decoder premises).
+(+ auth_b64strict, the reference decoder that witnesses the consistency of the decoder premises), auth_history (Model/AuthCfg.v:
+hash_password under changed Auth.SALT_LENGTH / Auth.DIGEST_LENGTH, whole histories of calls in one process).
 sha256, base64 DEcoding and scrypt are oracles of the model: the harness asks the MODEL which queries it
 makes (fields of the split string, the scrypt call it prepared) and answers them with the real libraries,
 so the string parsing / glue is compared exactly and those libraries are never re-implemented.  The
@@ -22,7 +23,13 @@ RULE = ("real hashes of a small password set (empty, NUL, 10 kB, near-identical 
         "every truncation position, every field removed / duplicated, every single-character replacement / "
         "deletion / insertion in each field, every (salt_length, length) pair on a grid, every parameter byte "
         "edit, wrong argument types, the D14 witnesses; non-trivial = a corrupted string that still has four fields and decodes "
-        "(reaches scrypt) or an honest pair")
+        "(reaches scrypt) or an honest pair; PROCESS HISTORIES: sequences of {set Auth.SALT_LENGTH / Auth.DIGEST_LENGTH (either, "
+        "both, back to the defaults, out of byte range), hash_password, verify_password of an earlier hash with the right / a "
+        "near-miss password} in ONE process: a long one (1200 operations, thorough 20000) with scrypt replaced by a cheap "
+        "consistent function (the theorems hold for any kdf), a short one with the real scrypt, and histories run in FRESH "
+        "interpreter processes (first hash under non-default settings, the demo order, random orders); every hash must embed the "
+        "settings current at its call, carry a fresh salt of the configured length, differ from every other hash of the process "
+        "and verify (own: True, other: False) at any later moment")
 ASSUMPTIONS = ["premises of the theorems about base64.b64decode: b64decode(b64encode(x)) = x (b64_roundtrip); a proper prefix "
                "of an encoding is refused or decodes to fewer bytes (b64_prefix_shorter); it fails with binascii.Error, a "
                "ValueError, only (b64_err_value) - each sampled here on the real library (every encode, every prefix, every "
@@ -33,7 +40,10 @@ ASSUMPTIONS = ["premises of the theorems about base64.b64decode: b64decode(b64en
                "kdf-injectivity is a premise of verify_other_false, stated per pair: scrypt(sha256(q)) != scrypt(sha256(p)) under "
                "the salt; verify_other_iff proves the premise is also necessary",
                "os.urandom returns 16 bytes (len salt = 16), distinct between the two calls (premise s1 <> s2 of fresh_salt_differs)",
-               "str.encode('utf-8') of the hash string is an input of the model (PStr enc); UnicodeEncodeError counts as ValueError"]
+               "str.encode('utf-8') of the hash string is an input of the model (PStr enc); UnicodeEncodeError counts as ValueError",
+               "process histories: Auth.SALT_LENGTH in 0..255 (a fresh salt is only demanded for >= 8 bytes), Auth.DIGEST_LENGTH in "
+               "1..255 (near-miss passwords are only required to fail for >= 16 bytes); the long history substitutes a cheap "
+               "function for scrypt inside mpgameserver.auth (hash and verify alike)"]
 TRUSTED = ["cryptography (SHA256, Scrypt), base64.b64decode, os.urandom, str.encode: oracles of the model, answers taken from the real "
            "libraries; what the theorems assume of them is listed under assumptions",
            "CPU/memory cost of verification with hostile embedded parameters (N*r*p up to 32768*255*255) is not covered"]
@@ -404,6 +414,379 @@ def near_misses(p, rng):
     return [q for q in dict.fromkeys(out) if q != p]
 
 
+# ------------------------------------------------------------------ process-level histories
+
+SL_CHOICES = [8, 12, 16, 16, 17, 24, 32, 64, 255]
+DL_CHOICES = [16, 20, 24, 24, 32, 48, 64, 255]
+
+
+def cheap_derive(salt, length, n, r, p, km):
+    """a cheap, consistent stand-in for scrypt (the theorems hold for ANY kdf): the requested cost parameters are mixed
+    into the salt so that a hash made and verified with different parameters does not match"""
+    return hashlib.scrypt(km, salt=struct.pack(">IIII", n, r, p, len(salt)) + bytes(salt), n=2, r=1, p=1, dklen=length)
+
+
+class AuthWorld:
+    """mpgameserver.auth with os.urandom recorded (the real generator answers) and, optionally, scrypt.Scrypt replaced by
+    cheap_derive; Auth.SALT_LENGTH / Auth.DIGEST_LENGTH are restored on exit"""
+
+    def __init__(self, cheap):
+        self.cheap = cheap
+        self.urandom = []
+        self.kdf_calls = []
+
+    def __enter__(self):
+        import os
+        import mpgameserver.auth as A
+        self.A = A
+        self.saved = (A.Auth.SALT_LENGTH, A.Auth.DIGEST_LENGTH)
+        real_urandom = os.urandom
+        real_scrypt = A.scrypt.Scrypt
+        w = self
+
+        def urandom(n):
+            b = real_urandom(n)
+            w.urandom.append((n, b))
+            return b
+
+        class Spy:
+            def __init__(self, salt, length, n, r, p, backend=None):
+                w.kdf_calls.append([bytes(salt), length, n, r, p])
+                self.a = (bytes(salt), length, n, r, p)
+                self.k = None if w.cheap else real_scrypt(salt, length, n, r, p)
+
+            def derive(self, km):
+                return cheap_derive(*self.a, km) if w.cheap else self.k.derive(km)
+
+            def verify(self, km, expected):
+                if not w.cheap:
+                    return self.k.verify(km, expected)
+                import hmac
+                if not hmac.compare_digest(cheap_derive(*self.a, km), bytes(expected)):
+                    raise A.InvalidKey("Keys do not match.")
+        self.patches = [unittest.mock.patch("os.urandom", urandom), unittest.mock.patch.object(A.scrypt, "Scrypt", Spy)]
+        for p_ in self.patches:
+            p_.start()
+        return self
+
+    def __exit__(self, *a):
+        for p_ in self.patches:
+            p_.stop()
+        self.A.Auth.SALT_LENGTH, self.A.Auth.DIGEST_LENGTH = self.saved
+
+
+def read_hash(h):
+    """the fields of a hash string, read independently: (N, r, p, salt_length, length, data) or None"""
+    if not isinstance(h, str):
+        return None
+    f = h.split(":")
+    if len(f) != 4 or f[0] != "scrypt" or f[1] != "1":
+        return None
+    try:
+        params = base64.b64decode(f[2], validate=True)
+        data = base64.b64decode(f[3], validate=True)
+    except ValueError:
+        return None
+    if len(params) != 6:
+        return None
+    return struct.unpack(">HBBBB", params) + (data,)
+
+
+def gen_history(rng, n, p_set=0.06):
+    """operations of one process: ["set", sl, dl] | ["hash", pw] | ["verify", k, pw-variant] (k counts back from the latest hash)"""
+    ops, nh = [], 0
+    pool = PASSWORDS[:6] + [b"correct horse", b"pw\x00with nul"]
+    for _ in range(n):
+        c = rng.random()
+        if c < p_set:
+            k = rng.random()
+            if k < 0.3:
+                ops.append(["set", None, rng.choice(DL_CHOICES)])
+            elif k < 0.55:
+                ops.append(["set", rng.choice(SL_CHOICES), None])
+            elif k < 0.8:
+                ops.append(["set", rng.choice(SL_CHOICES), rng.choice(DL_CHOICES)])
+            elif k < 0.96:
+                ops.append(["set", 16, 24])
+            else:
+                ops.append(["set", rng.choice([256, 300, 16]), rng.choice([256, 1000])])      # does not fit struct 'B'
+        elif c < 0.55 or nh == 0:
+            pw = rng.choice(pool) if rng.random() < 0.7 else bytes(rng.randrange(256) for _ in range(rng.randrange(0, 24)))
+            if rng.random() < 0.02:
+                pw = rng.choice(["str", None, bytearray(b"pw")])
+            ops.append(["hash", pw])
+            nh += 1
+        else:
+            ops.append(["verify", rng.randrange(0, min(nh, 40)), rng.choice(["own", "own", "other"])])
+    return ops
+
+
+def run_history(ctx, ops, cheap, label):
+    """one process history on the implementation, judged operation by operation; returns the hash calls for the model:
+    [(sl, dl, pw, salt, result)] and the set operations in order"""
+    run, rng = ctx.run, ctx.run.rng
+    site = "Auth.hash_password after Auth.SALT_LENGTH/DIGEST_LENGTH changed"
+    made = []          # (pw, h, sl, dl) of successful hashes
+    seen_h, seen_salt = {}, {}
+    cfg_hist = [[16, 24]]
+    mops, results = [], []
+    with AuthWorld(cheap) as w:
+        Auth = w.A.Auth
+        Auth.SALT_LENGTH, Auth.DIGEST_LENGTH = 16, 24
+        for i, op in enumerate(ops):
+            sl, dl = Auth.SALT_LENGTH, Auth.DIGEST_LENGTH
+            ctxd = {"history": label, "operation": i, "hashes_before": len(results), "settings_history": cfg_hist[-4:],
+                    "configured": [sl, dl], "cheap_kdf": cheap}
+            if op[0] == "set":
+                if op[1] is not None:
+                    Auth.SALT_LENGTH = op[1]
+                if op[2] is not None:
+                    Auth.DIGEST_LENGTH = op[2]
+                cfg_hist.append([Auth.SALT_LENGTH, Auth.DIGEST_LENGTH])
+                mops.append([0, Auth.SALT_LENGTH, Auth.DIGEST_LENGTH])
+                run.count("history_set")
+            elif op[0] == "hash":
+                pw = op[1]
+                del w.urandom[:], w.kdf_calls[:]
+                o = lib.guarded(Auth.hash_password, pw, wrap=lambda s: s.encode("utf-8") if isinstance(s, str) else ["not-a-str"])
+                rec = read_hash(o[1].decode("utf-8")) if o[0] == 0 and isinstance(o[1], bytes) else None
+                # the salt of this call: read from the string (how the code obtains its random bytes is its own business;
+                # that they are fresh is judged below); os.urandom's answer when there is no string
+                salt = rec[5][:sl] if rec is not None and 0 <= sl <= 255 else (w.urandom[0][1] if w.urandom else b"")
+                mops.append([1, v_py(pw), salt])
+                results.append((sl, dl, pw, salt, o))
+                run.count("history_hash")
+                run.evaluations += 1
+                if not isinstance(pw, bytes):
+                    if o != lib.err(lib.ERR["TypeError"]):
+                        ctx.violation("hash-wrong-exception", dict(ctxd, password=repr(pw), observed=o), site)
+                    continue
+                d = dict(ctxd, password=pw)
+                if not (0 <= sl <= 255 and 0 <= dl <= 255):
+                    if o[0] == 0:
+                        ctx.violation("hash-embeds-stale-parameters", dict(d, observed=o, note="settings do not fit the format"), site)
+                    continue
+                if o[0] != 0 or not isinstance(o[1], bytes):
+                    ctx.violation("hash-raises", dict(d, observed=o), site)
+                    continue
+                h = o[1].decode("utf-8")
+                d["hash"] = h
+                if rec is None:
+                    ctx.violation("hash-malformed", d, site)
+                    continue
+                made.append((pw, h, sl, dl))      # later verify operations show what a wrong string does
+                data = rec[5]
+                if rec[:5] != (16384, 16, 1, sl, dl):
+                    ctx.violation("hash-embeds-stale-parameters", dict(d, embedded=list(rec[:5]), expected=[16384, 16, 1, sl, dl]), site)
+                if len(data) != sl + dl:
+                    ctx.violation("hash-salt-or-length-wrong", dict(d, data_len=len(data), urandom_asked=[u[0] for u in w.urandom]), site)
+                km = hashlib.sha256(pw).digest()
+                if w.kdf_calls != [[salt, dl, 16384, 16, 1]]:
+                    ctx.violation("hash-kdf-parameters-wrong", dict(d, kdf_calls=w.kdf_calls), site)
+                elif len(data) == sl + dl:
+                    want = cheap_derive(salt, dl, 16384, 16, 1, km) if cheap else ctx.kdf(salt, dl, 16384, 16, 1, km)[1]
+                    if data[sl:] != want:
+                        ctx.violation("hash-digest-wrong", d, site)
+                if h in seen_h:
+                    ctx.violation("same-hash-twice", dict(d, first_made_at_operation=seen_h[h]), site)
+                if sl >= 8 and salt in seen_salt:
+                    ctx.violation("salt-reused", dict(d, salt=salt, first_used_at_operation=seen_salt[salt]), site)
+                seen_h.setdefault(h, i)
+                seen_salt.setdefault(salt, i)
+                if [sl, dl] != [16, 24] or len(cfg_hist) > 1:
+                    run.nt(("history", label, i))
+            else:
+                if not made:
+                    continue
+                pw, h, hsl, hdl = made[-1 - min(op[1], len(made) - 1)]
+                q = pw if op[2] == "own" else rng.choice(near_misses(pw, rng))
+                if op[2] == "other" and hdl < 16:
+                    continue
+                o = lib.guarded(Auth.verify_password, q, h, wrap=as_flag)
+                run.count("history_verify_" + op[2])
+                run.evaluations += 1
+                d = dict(ctxd, password=q, hash=h, hashed_under=[hsl, hdl], observed=o)
+                vsite = "Auth.verify_password of a hash made earlier in the process"
+                if o[0] == 1:
+                    ctx.violation("honest-hash-raises", d, vsite)
+                elif op[2] == "own" and o[1] != 1:
+                    ctx.violation("own-password-rejected", d, vsite)
+                elif op[2] == "other" and o[1] != 0:
+                    ctx.violation("other-password-accepted", d, vsite)
+    return results, mops, made
+
+
+def history_model(ctx, results, mops, cheap, unit_cases):
+    """unit auth_history: the same history through the model (oracle tables answered by the kdf in use)"""
+    M = ctx.run.model
+    sha, kdf = {}, {}
+    for sl, dl, pw, salt, o in results:
+        if isinstance(pw, bytes):
+            km = ctx.sha(pw)
+            sha[pw] = km
+            if 0 <= sl <= 255 and 1 <= dl <= 255:
+                key = (salt, dl, 16384, 16, 1, km)
+                kdf[key] = lib.ok(cheap_derive(*key)) if cheap else ctx.kdf(*key)
+    arg = [16, 24, mops, [[k, v] for k, v in sha.items()], [[list(k), v] for k, v in kdf.items()]]
+    mod = M.call("auth_history", arg)
+    ctx.run.compare("auth_history", [{"history": unit_cases, "hash_call": j, "settings": [r[0], r[1]],
+                                      "password": r[2] if isinstance(r[2], bytes) else repr(r[2]), "salt": r[3]}
+                                     for j, r in enumerate(results)], [r[4] for r in results], mod)
+
+
+FRESH_SRC = r"""
+import sys, json
+sys.path.insert(0, sys.argv[1])
+from mpgameserver.auth import Auth
+out = []
+made = []
+for op in json.load(sys.stdin):
+    try:
+        if op[0] == "set":
+            if op[1] is not None: Auth.SALT_LENGTH = op[1]
+            if op[2] is not None: Auth.DIGEST_LENGTH = op[2]
+            out.append(["set", Auth.SALT_LENGTH, Auth.DIGEST_LENGTH])
+        elif op[0] == "hash":
+            h = Auth.hash_password(bytes.fromhex(op[1]))
+            made.append(h)
+            out.append(["hash", h, Auth.SALT_LENGTH, Auth.DIGEST_LENGTH])
+        else:
+            r = Auth.verify_password(bytes.fromhex(op[2]), made[op[1]])
+            out.append(["verify", r if isinstance(r, bool) else repr(r)])
+    except Exception as e:
+        out.append(["exc", type(e).__name__, str(e)[:80]])
+print(json.dumps(out))
+"""
+
+
+def fresh_histories(run):
+    rng = run.rng
+    P, Q = b"correct horse", b"correct horsf"
+    hx = lambda b: b.hex()
+    hs = [
+        # the first hash of the process is made under non-default settings, then the defaults come back
+        [["set", None, 32], ["hash", hx(P)], ["verify", 0, hx(P)], ["set", 16, 24], ["hash", hx(P)], ["verify", 1, hx(P)],
+         ["verify", 1, hx(Q)], ["verify", 0, hx(P)], ["set", 24, None], ["hash", hx(b"")], ["verify", 2, hx(b"")], ["verify", 2, hx(b"\x00")]],
+        # defaults first, then each attribute is raised, then both go back
+        [["hash", hx(P)], ["hash", hx(P)], ["set", None, 32], ["hash", hx(P)], ["verify", 2, hx(P)], ["verify", 2, hx(Q)],
+         ["set", 24, None], ["hash", hx(b"pw\x00with nul")], ["verify", 3, hx(b"pw\x00with nul")], ["set", 16, 24], ["hash", hx(b"")],
+         ["verify", 4, hx(b"")], ["verify", 0, hx(P)], ["verify", 1, hx(Q)]],
+    ]
+    for _ in range(8 if run.thorough() else 1):
+        ops, nh = [], 0
+        for _ in range(rng.randrange(6, 12)):
+            c = rng.random()
+            if c < 0.35:
+                ops.append(["set", rng.choice(SL_CHOICES + [None] * 5), rng.choice(DL_CHOICES + [None] * 5)])
+            elif c < 0.7 or nh == 0:
+                ops.append(["hash", hx(rng.choice(PASSWORDS[:6]))])
+                nh += 1
+            else:
+                k = rng.randrange(nh)
+                ops.append(["verify", k, "own" if rng.random() < 0.6 else "other"])
+        # passwords of the verify operations
+        hp = [bytes.fromhex(o[1]) for o in ops if o[0] == "hash"]
+        for o in ops:
+            if o[0] == "verify":
+                o[2] = hx(hp[o[1]] if o[2] == "own" else hp[o[1]] + b"\x00")
+        hs.append(ops)
+    return hs
+
+
+def run_fresh(ctx, histories):
+    """each history in its own interpreter (module and class state as at import); judged here with the independent spec"""
+    import subprocess, json
+    run = ctx.run
+    procs = []
+    for ops in histories:
+        p = subprocess.Popen([lib.PY, "-c", FRESH_SRC, lib.REPO], stdin=subprocess.PIPE, stdout=subprocess.PIPE,
+                             stderr=subprocess.PIPE, text=True)
+        p.stdin.write(json.dumps(ops))
+        p.stdin.close()
+        procs.append(p)
+    cases = []
+    for hi, (ops, p) in enumerate(zip(histories, procs)):
+        out = p.stdout.read()
+        err = p.stderr.read()
+        p.wait()
+        site = "Auth.hash_password / verify_password in a fresh process"
+        try:
+            res = json.loads(out)
+        except ValueError:
+            ctx.violation("fresh-process-crashed", {"history": ops, "stderr": err[-300:]}, site)
+            continue
+        cfg, made, seen = [16, 24], [], set()
+        for i, (op, r) in enumerate(zip(ops, res)):
+            run.evaluations += 1
+            d = {"fresh_process_history": ops[:i + 1], "operation": i, "configured": list(cfg), "observed": r}
+            if op[0] == "set":
+                cfg = [cfg[0] if op[1] is None else op[1], cfg[1] if op[2] is None else op[2]]
+                continue
+            if r[0] == "exc":
+                ctx.violation("honest-hash-raises" if op[0] == "verify" else "hash-raises", d, site)
+                if op[0] == "hash":
+                    made.append(None)
+                continue
+            if op[0] == "hash":
+                pw, h = bytes.fromhex(op[1]), r[1]
+                made.append((pw, h))
+                rec = read_hash(h)
+                if rec is None or rec[:5] != (16384, 16, 1, cfg[0], cfg[1]) or len(rec[5]) != cfg[0] + cfg[1]:
+                    ctx.violation("hash-embeds-stale-parameters",
+                                  dict(d, password=pw, hash=h, embedded=None if rec is None else list(rec[:5]),
+                                       expected=[16384, 16, 1] + cfg), site)
+                elif spec(pw, h) is not True:
+                    ctx.violation("hash-digest-wrong", dict(d, password=pw, hash=h), site)
+                if h in seen:
+                    ctx.violation("same-hash-twice", dict(d, hash=h), site)
+                seen.add(h)
+                cases.append({"pw": pw, "h": h, "tag": "own:fresh-process", "expect": True})
+                run.nt(("fresh", hi, i))
+            else:
+                if made[op[1]] is None:
+                    continue
+                pw, h = made[op[1]]
+                q = bytes.fromhex(op[2])
+                want = q == pw
+                if r[1] is not want:
+                    ctx.violation("own-password-rejected" if want else "other-password-accepted",
+                                  dict(d, password=q, hash=h), site)
+    run.count("fresh_process_histories", len(histories))
+    return cases
+
+
+def process_histories(ctx):
+    run, rng = ctx.run, ctx.run.rng
+    # 1. a long life of one process, scrypt replaced by a cheap consistent function
+    n = 20000 if run.thorough() else 1200
+    ops = [["hash", b"first"], ["hash", b"first"], ["set", None, 32], ["hash", b"first"], ["verify", 0, "own"], ["verify", 0, "other"],
+           ["set", 24, None], ["hash", b"pw\x00"], ["verify", 0, "own"], ["set", 16, 24], ["hash", b""], ["verify", 0, "own"],
+           ["verify", 3, "own"]] + gen_history(rng, n)
+    for lo in range(0, len(ops), 3000):      # model side in slices (the oracle tables are searched linearly)
+        part = ops[lo:lo + 3000]
+        res, mops, made = run_history(ctx, part, True, "long/cheap-kdf[%d:]" % lo)
+        history_model(ctx, res, mops, True, "long/cheap-kdf[%d:]" % lo)
+    # 2. the same kind of life with the real scrypt (each derivation ~0.08 s)
+    steps = [["set", None, 32], ["set", 24, None], ["set", 16, 24], ["set", rng.choice(SL_CHOICES), rng.choice(DL_CHOICES)],
+             ["set", 8, 16], ["set", 16, 24]]
+    ops = [["hash", b"probe"], ["verify", 0, "own"]]
+    for s in (steps if run.thorough() else steps[:2] + [rng.choice(steps[2:5]), steps[5]]):
+        ops += [s, ["hash", rng.choice(PASSWORDS[:5])], ["verify", 0, "own"], ["verify", 0, "other"], ["verify", 1, "own"]]
+    res, mops, made = run_history(ctx, ops, False, "short/real-scrypt")
+    history_model(ctx, res, mops, False, "short/real-scrypt")
+    # the hashes made under changed settings through the full verify pipeline (correspondence of verify_password on
+    # embedded non-default lengths, spied scrypt call, independent spec), now that the settings are back at the defaults
+    cases = []
+    for pw, h, sl, dl in made:
+        cases.append({"pw": pw, "h": h, "tag": "own:history", "expect": True})
+    if made:
+        pw, h, sl, dl = made[-2] if len(made) > 1 else made[-1]
+        cases.append({"pw": near_misses(pw, rng)[0], "h": h, "tag": "other:history", "expect": False})
+    # 3. fresh interpreter processes
+    cases += run_fresh(ctx, fresh_histories(run))
+    verify_batch(ctx, cases)
+
+
 # ------------------------------------------------------------------ the run
 
 def run(run):
@@ -440,6 +823,10 @@ def run(run):
     hcases += [(x, b"s" * 16) for x in bad_pw]
     himpl = hash_batch(ctx, hcases)
     honest = [(pw, o[1].decode()) for (pw, _), o in zip(hcases, himpl) if o[0] == 0 and isinstance(o[1], bytes)]
+    if len(honest) < 3:
+        # hash_password did not ask os.urandom for one salt per call (reported above as a disagreement of unit auth_hash):
+        # go on with hashes made without the patched generator, so that the rest of the search still runs
+        honest += [(pw, Auth.hash_password(pw)) for pw in pws[:3]]
     run.count("real_hashes", len(honest))
 
     # ---- O1/O2: right and near-miss passwords on real hashes
@@ -560,6 +947,7 @@ def run(run):
                     run.oracle_violation("base64-prefix-hypothesis", {"input": x, "cut": m}, "base64")
             except ValueError:
                 pass
+    process_histories(ctx)
     run.count("scrypt_derivations_expensive", ctx.expensive)
     run.count("scrypt_derivations_total", len(ctx.kdf_cache))
     run.count("skipped_expensive_parameters", ctx.skipped)
